@@ -72,7 +72,7 @@ REQUIRED = dict(
              'query:interior', 'query:exact-Tmin', 'query:exact-Tmax', 'query:exact-Pmin', 'query:exact-Pmax',
              'magnitude:tiny', 'magnitude:mid', 'magnitude:large', 'magnitude:steep', 'magnitude:ones',
              'exp-mode-zero-in-table', 'linear-mode-zero-in-table', 'live-switch:linear->exp', 'live-switch:exp->linear',
-             'live-switch:exp->exp', 'live-switch:linear->linear'])
+             'live-switch:exp->exp', 'live-switch:linear->linear', 'table:single-P-node', 'table:single-T-node'])
 EPS = float(np.finfo(float).eps)
 TOOL_ID = 3
 
@@ -377,8 +377,14 @@ def finalize(m, inconclusive):
 
 
 # --------------------------------------------------------------- generators
-def gen_grids(rng):
+def gen_grids(rng, ctx=None):
     nP, nT = int(rng.integers(2, 6)), int(rng.integers(2, 8))
+    if rng.random() < 0.12:
+        # a table with a single node along an axis (pressure-independent / single-temperature tables)
+        if rng.random() < 0.6:
+            nP = 1
+        if nP > 1 or rng.random() < 0.5:
+            nT = 1
     T = np.sort(rng.uniform(60, 4000, nT))
     for k in range(1, nT):
         if T[k] - T[k - 1] < 5:
@@ -386,7 +392,7 @@ def gen_grids(rng):
     if rng.random() < 0.3:
         T = np.round(T)                                  # round numbers like real tables (100, 200, ...)
         T = np.unique(T)
-        if len(T) < 2:
+        if len(T) < 2 and nT > 1:
             T = np.array([T[0], T[0] + 100.0])
         if rng.random() < 0.5:
             T = T.astype(np.int64)                       # a temperature axis built with np.arange(...): integer dtype
@@ -399,8 +405,11 @@ def gen_grids(rng):
     if rng.random() < 0.3:
         P = 10.0 ** np.round(lp)                          # exact decades
         P = np.unique(P)
-        if len(P) < 2:
+        if len(P) < 2 and nP > 1:
             P = np.array([P[0], P[0] * 10])
+    if ctx is not None:
+        ctx.observe('table:single-P-node' if len(P) == 1 else 'table:P-nodes>=2',
+                    'table:single-T-node' if len(T) == 1 else 'table:T-nodes>=2')
     return T, P
 
 
@@ -425,6 +434,10 @@ def gen_queries(rng, Tg, Pg, budget=64):
     qs = []
     lP = np.log10(Pg)
     sT, sP = Tg[-1] - Tg[0], lP[-1] - lP[0]
+    if len(Tg) == 1:
+        sT = 0.3 * float(Tg[0])          # a single node: "outside" is measured against the node itself
+    if len(Pg) == 1:
+        sP = 1.0
     for t in Tg:
         for p in Pg:
             qs.append((t, p, 'at-node'))
@@ -433,10 +446,12 @@ def gen_queries(rng, Tg, Pg, budget=64):
     for a, b in zip(lP[:-1], lP[1:]):
         qs.append((Tg[rng.integers(0, len(Tg))], 10 ** (0.5 * (a + b)), 'P-edge-midpoint'))
     for _ in range(10):
-        i, p = rng.integers(0, len(Tg) - 1), rng.integers(0, len(Pg) - 1)
+        i, p = rng.integers(0, max(len(Tg) - 1, 1)), rng.integers(0, max(len(Pg) - 1, 1))
         f = [rng.random(), 10 ** rng.uniform(-9, -1), 1 - 10 ** rng.uniform(-9, -1)][rng.integers(0, 3)]
         g = [rng.random(), 10 ** rng.uniform(-9, -1), 1 - 10 ** rng.uniform(-9, -1)][rng.integers(0, 3)]
-        qs.append((Tg[i] + f * (Tg[i + 1] - Tg[i]), 10 ** (lP[p] + g * (lP[p + 1] - lP[p])), 'interior'))
+        tq = Tg[i] + f * (Tg[i + 1] - Tg[i]) if len(Tg) > 1 else Tg[0]
+        pq = 10 ** (lP[p] + g * (lP[p + 1] - lP[p])) if len(Pg) > 1 else Pg[0]
+        qs.append((tq, pq, 'interior'))
 
     def t_of(kind):
         d = 10 ** rng.uniform(-9, 1) * sT
@@ -547,7 +562,7 @@ def run_queries(ctx, rng, op, queries, layout, mode):
 # ----------------------------------------------------------------- workloads
 def wl_xsec(ctx, rng, zeros=False):
     Fake = world.fake_opacity_class()
-    T, P = gen_grids(rng)
+    T, P = gen_grids(rng, ctx)
     nwn = int(rng.integers(1, 11))
     wn = world.wn_grid(rng, max(nwn, 2))[:nwn] if nwn > 1 else np.array([float(rng.uniform(100, 5000))])
     x, mag = gen_values(rng, (len(P), len(T), nwn))
@@ -583,7 +598,7 @@ def wl_zeros(ctx, rng):
 
 def wl_ktable(ctx, rng):
     FakeK = fake_ktable_class()
-    T, P = gen_grids(rng)
+    T, P = gen_grids(rng, ctx)
     nwn, ng = int(rng.integers(1, 8)), int(rng.integers(1, 7))
     wn = world.wn_grid(rng, max(nwn, 2))[:nwn] if nwn > 1 else np.array([float(rng.uniform(100, 5000))])
     x, mag = gen_values(rng, (len(P), len(T), nwn, ng))
@@ -604,7 +619,7 @@ def wl_files(ctx, rng):
     """The same tables through the real pickle loaders (PickleOpacity, PickleKTable)."""
     from taurex.opacity.pickleopacity import PickleOpacity
     from taurex.opacity.ktables.picklektable import PickleKTable
-    T, P = gen_grids(rng)
+    T, P = gen_grids(rng, ctx)
     nwn = int(rng.integers(2, 9))
     wn = world.wn_grid(rng, nwn)
     mode = ['linear', 'exp'][rng.integers(0, 2)]
